@@ -256,6 +256,64 @@ CLAIMED = {
    design_ref="DESIGN.md §6 C16, §7"),
 }
 
+# additions of the last session (appended to the claims above; see DESIGN.md §12.2, §12.9, §12.10)
+ADD = {
+ "C04": ("  ADDED: restore points with SHARED objects - Codec/DeepCopy.v models copy.deepcopy with one memo over cell-identified "
+         "values; proved for every consistent state: the snapshot is an injective renaming into new cells (later play never alters "
+         "it, editing it never alters the game, two positions share a cell in the copy iff in the original, the same in-place "
+         "mutation replayed after a restore gives the renamed result); a per-variable copy splits shared objects (_refuted "
+         "witness).  Tie: the engine's _copy_state is compared with the model inside Coq on random shared structures (incl. import "
+         "bindings); 'undo + same choice again' = straight play on stories sharing objects and bound methods; the 50 bound is "
+         "re-checked after every kind of prefix (load, reload, rejected load, undo/redo, goto, reset).", None),
+ "C05": ("  ADDED: the save document as TEXT - Codec/JsonText.v models json.dumps (compact and indent=2) and json.loads; "
+         "proved: the document of save_state has distinct keys at every depth and loads(dumps doc) = loads(dumps_indent2 doc) = "
+         "Some(json_rt doc).  Tie: real save documents and compiled stories - json.dumps text byte-identical to the model's, "
+         "json.loads tree equal, inside Coq; continuation after load with objects of several class flavours (nested class, frozen "
+         "dataclass, guarded __setattr__, callable) whose methods the continuation calls.", None),
+ "C06": ("  ADDED: the JSON TEXT codec is inside the model (Codec/JsonText.v): loads(dumps j) = Some j and the same for the "
+         "indent=2 layout for ALL trees with distinct keys (no bound on depth or size, any byte, big integers), dumps injective, any "
+         "white-space layout loads alike, fuel = length suffices, output is printable ASCII, last-wins normalisation of repeated "
+         "keys; the serialised value written as text reads back as json_rt j.  Tie: json.dumps / json.loads against the model on "
+         "random values, corner cases (all 256 bytes, depth 40) and mutated texts, byte for byte inside Coq.", None),
+ "C07": ("  ADDED (the last clause at full strength): story_specs_roundtrip is a THEOREM of parse_real - every jump token and every "
+         "choice the real block extractors return, at any depth, went through extract_target_and_args, whose cut is the cut the "
+         "engine's own parenthesis scan makes - so compiled_step/played/run_never_binds_structurally hold for every compiled story "
+         "with no hypothesis on the story (balanced_extractor_tokens_needed shows the hypothesis is needed for arbitrary "
+         "extractors).  The call-shape phase now also passes None values, nested calls and strings holding commas, '=' and "
+         "parentheses, with Python's own binding of def T(sig) as the oracle for what the passage sees.", None),
+ "C14": ("  ADDED: the index a site passes IS the construct's line (Proofs/DiagCulprit.v, about parse_real): the comment pre-pass "
+         "keeps the line count and each line is a prefix of the author's; every DSyntax site i has i < length; every diagnostic is "
+         "classified as (a) line i exists and has the culprit shape of its site (the OPENING line for unclosed blocks; 42 sites), "
+         "(b) a block site raised while a loop body is re-parsed (sub-list index), (c) a content error inside a block with no line, "
+         "(d) a call:* post-validation site with no line - (b)-(d) are exactly the listed known findings; every site name the "
+         "parser can produce is enumerated.  Tie: model index + 1 = the line in the real compiler's message on ~120 malformed "
+         "stories per run, evaluated inside Coq (harness/diag_index_tie.py).", None),
+ "C16": ("  ADDED: deepcopy without sharing coincides with the fresh-copy model (link to C04's DeepCopy.v); compile-history "
+         "independence (each story compiled alone in a fresh interpreter vs after other stories in one process, in two orders; "
+         "earlier results re-compared after later compilations).", None),
+ "C17": ("  ADDED (whole input): legacy_and_at_forms_compile_identically - parse_real (map to_at_form ls) = parse_real ls for EVERY "
+         "line list with admissible ls = true (an executable side condition: each legacy header is read alike by the compiler's own "
+         "readers, and stands in header position, i.e. not inside Python code, a ~ continuation, @metadata, or as a stray closer), "
+         "any mixed subset of rewritten headers, and the extension to <<py ... >> vs @py: ... @endpy (admissible_full); every "
+         "conjunct has a _needed example replayed on the real compiler.  Two conjuncts turned out to be compiler defects (F17n, "
+         "F17o), were repaired in /repo, and the theorem was re-proved with the weaker side condition.",
+         "Coq proof (whole-input invariance of the parser model under comment decoration and legacy->@ rewriting, by simulation of "
+         "the main loop and the extractors) + vm_compute correspondence over every style and style pair"),
+ "C20": ("  ADDED (second tie, by TRANSLATION): on every run harness/c20_translate.py (fail-closed, Python ast) translates the current "
+         "bardic/stdlib/{economy,inventory,relationship}.py into Gallina (52 methods, by symbolic execution of the statement lists; "
+         "operators, constants and branch order taken from the source); Stdlib/GameGenEq.v.in, compiled against the generated file, "
+         "proves each generated function equal to the hand model and RE-STATES the 15 property theorems over the generated "
+         "functions (all closed).  A source change that alters a method breaks its equality lemma (or fails translation); the check "
+         "then searches 4x more cases focused on that method and reports translation:<function> (no-failing-input-found when the "
+         "search finds nothing).  dice.py and aliasing (item.copy()) are outside the translator.",
+         "Coq proof (induction over call lists) + Python->Gallina translator with per-function equality proofs re-checked on every "
+         "run + vm_compute correspondence against the real classes"),
+}
+for _pid, (_t, _tech) in ADD.items():
+    CLAIMED[_pid]["text"] += _t
+    if _tech:
+        CLAIMED[_pid]["technique"] = _tech
+
 ALL = [f"C{i:02d}" for i in range(1, 21)]
 PENDING_REASON = "check not built yet in this revision of /verif (design in DESIGN.md §6); will be claimed when its model, theorems and correspondence run exist"
 
